@@ -277,7 +277,8 @@ def run_case(ctx, case):
     prog, entry, inter, allowed, nexts = case['program'], case['entry'], case['interleaving'], case['allowed_time'], case['next']
     files = student_files(prog, entry)
     want_next = fresh_reference(files, nexts, case.get('history', 'fresh'))
-    sandbox, report = sc.new_sandbox(files)
+    sandbox, report = sc.new_sandbox(files, case.get('tracer', 'none'))
+    ctx.seen('tracers', case.get('tracer', 'none'))
     sandbox.allowed_time = allowed
     if entry in ('call', 'evaluate'):
         sbx.run(threaded=False)
@@ -428,11 +429,14 @@ def run_case(ctx, case):
         ctx.count('gate_expired')
         ctx.undecided('gate expired: %s (%s)' % (ctl.expired[0], case_label(case)))
         return
-    if not quiesced:
-        ctx.undecided('abandoned thread did not finish within the watchdog (%s)' % case_label(case))
-        return
+    n_violations_before = sum(v['count'] for v in ctx.violations.values())
     forced_ok = confirm_order(inter, ctl.log, entry)
-    if inter != 'unforced':
+    if not quiesced:
+        # the abandoned thread is still running long after it was interrupted. What it does to the later executions is judged
+        # below like in any other case (their output and results, the real stdout); only if none of that shows anything is the
+        # case left undecided
+        ctx.count('abandoned_threads_still_running_at_the_watchdog')
+    elif inter != 'unforced':
         if forced_ok:
             ctx.count('forced_orders_confirmed')
         elif not never_handles:
@@ -476,6 +480,8 @@ def run_case(ctx, case):
         ctx.violation('C14|next-execution-wrote-to-real-stdout|%s' % inter, cs, leaked_real[:200])
     elif leaked_real:
         ctx.count('abandoned_thread_output_on_real_stdout_(student text, not judged)')
+    if not quiesced and sum(v['count'] for v in ctx.violations.values()) == n_violations_before:
+        ctx.undecided('abandoned thread did not finish within the watchdog, and nothing it did was observed (%s)' % case_label(case))
     if ctx.evaluations % 7 == 0:
         ctx.sample({'case': cs, 'event_order': order, 'at_return': at_return, 'at_quiescence': at_quiescence,
                     'next': got_next[:2], 'wall_s': round(wall, 2)})
@@ -715,8 +721,8 @@ def public(case):
 
 
 def case_label(case):
-    return '%s/%s/%s/%.2f/%s/%s/%s' % (case['program'], case['entry'], case['interleaving'], case['allowed_time'], ','.join(case['next']),
-                                        case.get('history', 'fresh'), case.get('threaded_via', 'argument'))
+    return '%s/%s/%s/%.2f/%s/%s/%s/%s' % (case['program'], case['entry'], case['interleaving'], case['allowed_time'], ','.join(case['next']),
+                                           case.get('history', 'fresh'), case.get('threaded_via', 'argument'), case.get('tracer', 'none'))
 
 
 def all_cases(ctx):
@@ -763,6 +769,8 @@ def run(ctx):
                 k = [rng.choice(['call-add', 'evaluate-expr'])] + [x for x in k if x not in ('call-add', 'evaluate-expr')][:2]
             case['next'] = k
             case['history'] = rng.choice(HISTORIES)
+            # the environments switch the line tracer on by default: the interrupt then mostly lands inside the trace callback
+            case['tracer'] = rng.choice(['none', 'native', 'native']) if c['interleaving'] in ('unforced', 'grader-first', 'zombie-after-next') else 'none'
             if 'threaded_via' not in case:
                 case['threaded_via'] = rng.choice(['argument', 'attribute']) if c['entry'] != 'import' else 'argument'
             run_case(ctx, case)
